@@ -288,6 +288,8 @@ def emit(T):
     t.append("    controller number named in the doc comment as `CC#n` (or -1), doc stem id -/")
     t.append("structure SysFuncRow where\n  name : List Nat\n  tt : Nat\n  argt : Nat\n  tag1 : Int\n  tag2 : Int\n  docCc : Int\n  stem : Nat\nderiving DecidableEq, Repr\n")
     t.append("def tokenTypeNames : List String := [%s]" % ", ".join(lstr(x) for x in tts))
+    for i, x in enumerate(tts):
+        t.append("def tt_%s : Nat := %d" % (x, i))
     stems = {}
     def stem_of(doc):
         d = re.sub(r"\(ex\).*", "", doc)
